@@ -166,7 +166,53 @@ class Interp(ExprMixin, CallMixin):
         fr = self.new_frame(None, func.module, recv=ClassV(cls), defcls=func.cls)
         fr.quiet = True
         recv = ClassV(cls) if func.kind == 'classmethod' else SelfV((), cls, cls)
-        return self.call_function(func, recv, list(args), {}, fr, None)
+        res = self.call_function(func, recv, list(args), {}, fr, None)
+        if not args and func.kind in ('classmethod', 'staticmethod') and (
+                isinstance(res, (Unknown, Sym)) or (isinstance(res, DictV) and (not res.pairs or not res.complete)) or
+                (isinstance(res, ListV) and not res.complete)):
+            # a table that is built by statements the abstract run does not fold (loops over class tuples, grouping helpers): the
+            # method is evaluated concretely from its own statements, classes and enum members standing for themselves
+            conc = self.concrete_constant(cls, func)
+            if conc is not None:
+                return conc
+        return res
+
+    def concrete_constant(self, cls, func):
+        from .miniexec import ClassRef, EnumVal, Evaluator, Native, Raised, Unsupported, class_call_hook
+        key = ('concrete', cls.construct if hasattr(cls, 'construct') else id(cls), func.construct)
+        cache = self.__dict__.setdefault('_concrete_cache', {})
+        if key in cache:
+            return cache[key]
+
+        class Cls(Native):
+            _repo_class = cls
+
+        def convert(v, depth=0):
+            if depth > 6:
+                raise Unsupported('depth')
+            if isinstance(v, ClassRef):
+                return ClassV(v.info)
+            if isinstance(v, EnumVal):
+                return EnumMember(v.info, v.name)
+            if isinstance(v, (bool, int, str, bytes, type(None))):
+                return v
+            if isinstance(v, tuple):
+                return tuple(convert(x, depth + 1) for x in v)
+            if isinstance(v, list):
+                return ListV([convert(x, depth + 1) for x in v], True)
+            if isinstance(v, dict):
+                return DictV([(convert(k, depth + 1), convert(x, depth + 1)) for k, x in v.items()], True)
+            raise Unsupported('value of kind %s' % type(v).__name__)
+        res = None
+        try:
+            hook = class_call_hook(cls, None, self.model)
+            params = [a.arg for a in func.node.args.args]
+            env = {params[0]: Cls()} if params and func.kind == 'classmethod' else {}
+            res = convert(Evaluator(env, hook, hook.name_hook_for(func.module, None)).function(func.node))
+        except (Unsupported, Raised, AttributeError, TypeError, KeyError, IndexError, ValueError):
+            res = None
+        cache[key] = res
+        return res
 
     # -- statements -------------------------------------------------------------------
     def exec_body(self, stmts, fr):
@@ -230,6 +276,10 @@ class Interp(ExprMixin, CallMixin):
     def s_Return(self, st, fr):
         v = self.eval(st.value, fr) if st.value is not None else None
         fr.returns.append(v)
+        # what is known to be non-empty about the returned value (or the parts of a returned tuple) at this return
+        from .values import show as _show
+        known = {_show(x) for x in ((v if isinstance(v, tuple) else (v,))) if isinstance(x, ListV) and _show(x) in fr.nonempty}
+        fr.returned_nonempty = known if getattr(fr, 'returned_nonempty', None) is None else (fr.returned_nonempty & known)
         fr.emit(Return(v, st, fr.func))
         return 'return'
 
@@ -678,6 +728,52 @@ class Interp(ExprMixin, CallMixin):
         return False
 
     @staticmethod
+    def leaves_only_after_append(st, name):
+        """``while True:`` whose every ``break`` (outside nested loops) stands in a statement of the body that comes after a statement
+        which always appends to ``name`` (the append itself, or a ``try`` around it all of whose handlers raise): the list has an
+        element whenever the loop is left normally.  ``continue`` before the append only starts another pass"""
+        if not (isinstance(st.test, ast.Constant) and st.test.value is True) or st.orelse:
+            return False
+
+        def is_append(s):
+            return isinstance(s, ast.Expr) and isinstance(s.value, ast.Call) and isinstance(s.value.func, ast.Attribute) and \
+                s.value.func.attr == 'append' and isinstance(s.value.func.value, ast.Name) and s.value.func.value.id == name
+
+        def raises(h):
+            last = h.body[-1] if h.body else None
+            return isinstance(last, ast.Raise) or (isinstance(last, ast.Expr) and isinstance(last.value, ast.Call) and
+                                                   ast.unparse(last.value.func).endswith('raise_from'))
+
+        def breaks(s):
+            out = []
+            stack = [s]
+            while stack:
+                x = stack.pop()
+                if isinstance(x, ast.Break):
+                    out.append(x)
+                if isinstance(x, (ast.For, ast.While, ast.FunctionDef, ast.Lambda)) and x is not s:
+                    continue
+                stack.extend(ast.iter_child_nodes(x))
+            return out
+        first = None
+        for i, s in enumerate(st.body):
+            if is_append(s) or (isinstance(s, ast.Try) and all(raises(h) for h in s.handlers) and any(is_append(x) for x in s.body) and
+                                not s.orelse and not s.finalbody):
+                first = i
+                break
+        if first is None:
+            return False
+        found = False
+        for i, s in enumerate(st.body):
+            if isinstance(s, (ast.For, ast.While)):
+                continue
+            b = breaks(s)
+            if b and i <= first:
+                return False
+            found = found or bool(b)
+        return found
+
+    @staticmethod
     def runs_at_least_once(it, fr):
         """``range(n)`` / ``range(0, n)`` over an unsigned parsed number (or a length) that an enclosing test established to be
         non-zero"""
@@ -723,6 +819,10 @@ class Interp(ExprMixin, CallMixin):
                     # every iteration that completes appends, and the loop count was established to be non-zero
                     from .values import show as _show
                     fr.nonempty.add(_show(fr.env[n]))
+                elif isinstance(st, ast.While) and k == 0 and self.leaves_only_after_append(st, n):
+                    # ``while True`` that is left by ``break`` only, and every ``break`` comes after an append of the same pass
+                    from .values import show as _show
+                    fr.nonempty.add(_show(fr.env[n]))
                 continue
             if same_value(old, new):
                 fr.env[n] = old if n in fr.env else new
@@ -738,6 +838,9 @@ class Interp(ExprMixin, CallMixin):
                     delta = new.items[len(old.items):]
                     fr.env[n] = ListV(old.items + [Sym('repeat', *delta)], False)
                     if delta and isinstance(st, ast.For) and self.always_appends(st.body, n) and self.runs_at_least_once(node.iterable, fr):
+                        from .values import show as _show
+                        fr.nonempty.add(_show(fr.env[n]))
+                    elif delta and isinstance(st, ast.While) and not old.items and self.leaves_only_after_append(st, n):
                         from .values import show as _show
                         fr.nonempty.add(_show(fr.env[n]))
                     continue
